@@ -13,7 +13,7 @@ RULE = ('one run = one client byte string (random bytes; a grammar-valid request
         'routes answering through okResponse compressed and plain and the redirect builders) and static '
         'server enabled, origins echo or refuse; everything the client receives is judged by h11; '
         'non-trivial = the input was not an unmodified valid request; distinct = distinct event-log digests')
-PROBES = ['random_bytes', 'mutated', 'truncated', 'edge_case', 'concatenated', 'valid', 'got_400', 'got_404',
+PROBES = ['framing', 'random_bytes', 'mutated', 'truncated', 'edge_case', 'concatenated', 'valid', 'got_400', 'got_404',
           'got_502', 'got_200', 'got_redirect', 'gzip_response', 'no_response_waiting', 'closed_without_response',
           'segmented']
 COMPONENTS = {
@@ -60,6 +60,41 @@ EDGE = [
     b'SIP/2.0 200 OK\r\n\r\n',
     b'\x16\x03\x01\x02\x00\x01\x00\x01\xfc\x03\x03' + b'\x00' * 40,
 ]
+
+
+CL_VALUES = [b'0', b'3', b'10', b'-5', b'+5', b'5, 5', b'abc', b'', b'99999999999999999999', b'0x5', b' 5 ', b'5.0']
+CHUNK_SIZES = [b'-5', b'-0', b'+3', b'0x3', b'3 ', b' 3', b'zz', b'', b'ffffffffffffffffff', b'3;x=y', b'03', b'3\t']
+
+
+def framing_case(tape: Any) -> bytes:
+    """Requests whose message framing is unusual, conflicting or invalid (duplicated / odd Content-Length values,
+    Content-Length together with chunked, odd chunk-size lines)."""
+    target = [b'/ok-small', b'http://up.example/f', b'http://up.example:8080/f'][tape.draw(3, 'ftarget')]
+    body = b'abcde'
+    v = tape.draw(5, 'fvariant')
+    hdrs = [b'Host: up.example']
+    if v == 0:      # two Content-Length lines
+        a = CL_VALUES[tape.draw(len(CL_VALUES), 'cl1')]
+        b = CL_VALUES[tape.draw(len(CL_VALUES), 'cl2')]
+        hdrs += [b'Content-Length: ' + a, [b'Content-Length: ', b'content-length: ', b'CONTENT-LENGTH:'][tape.draw(3, 'clcase')] + b]
+        payload = body
+    elif v == 1:    # one odd Content-Length
+        hdrs += [b'Content-Length: ' + CL_VALUES[tape.draw(len(CL_VALUES), 'cl1')]]
+        payload = body
+    elif v == 2:    # Content-Length and chunked together
+        hdrs += [b'Content-Length: ' + CL_VALUES[tape.draw(len(CL_VALUES), 'cl1')], b'Transfer-Encoding: chunked']
+        if tape.coin(0.5, 'order'):
+            hdrs[-2], hdrs[-1] = hdrs[-1], hdrs[-2]
+        payload = b'5\r\nabcde\r\n0\r\n\r\n'
+    elif v == 3:    # odd chunk-size line
+        hdrs += [b'Transfer-Encoding: ' + [b'chunked', b'Chunked', b'gzip, chunked', b'chunked, gzip'][tape.draw(4, 'te')]]
+        sz = CHUNK_SIZES[tape.draw(len(CHUNK_SIZES), 'csz')]
+        payload = sz + b'\r\nabc\r\n' + [b'0\r\n\r\n', b'0\r\n', b'', b'-0\r\n\r\n'][tape.draw(4, 'cend')]
+    else:           # chunked with a bad later chunk
+        hdrs += [b'Transfer-Encoding: chunked']
+        sz = CHUNK_SIZES[tape.draw(len(CHUNK_SIZES), 'csz')]
+        payload = b'3\r\nabc\r\n' + sz + b'\r\nde\r\n0\r\n\r\n'
+    return b'POST ' + target + b' HTTP/1.1\r\n' + b'\r\n'.join(hdrs) + b'\r\n\r\n' + payload
 
 
 def setup_worker(job: Dict[str, Any]) -> None:
@@ -112,8 +147,8 @@ def run_one(tape: Any, cfg: Dict[str, Any], forbid: FrozenSet[str] = frozenset()
         scen.sched_swarm(w, tape)
         w.dns['up.example'] = ['10.0.0.1']
         # ---- input --------------------------------------------------------------
-        kind = ['valid', 'mutated', 'truncated', 'random_bytes', 'edge_case', 'concatenated'][
-            tape.weighted([2, 4, 3, 2, 4, 1], 'kind')]
+        kind = ['valid', 'mutated', 'truncated', 'random_bytes', 'edge_case', 'concatenated', 'framing'][
+            tape.weighted([2, 4, 3, 2, 4, 1, 3], 'kind')]
 
         def valid_req() -> bytes:
             form = ['origin', 'absolute', 'connect'][tape.weighted([3, 3, 1], 'form')]
@@ -131,6 +166,8 @@ def run_one(tape: Any, cfg: Dict[str, Any], forbid: FrozenSet[str] = frozenset()
             data = EDGE[tape.draw(len(EDGE), 'edge')]
         elif kind == 'concatenated':
             data = valid_req() + valid_req()
+        elif kind == 'framing':
+            data = framing_case(tape)
         else:
             data = valid_req()
             if kind == 'mutated':
